@@ -151,7 +151,7 @@ CORPUS = [
 ]
 
 
-def list_idioms():
+def list_idioms(full=True):
     """possibly-empty-list idioms: a nullable left- or right-recursive nonterminal L placed after a
     nonterminal, after a nullable prefix, before a terminal, or alone (all combinations, deterministic)"""
     out = []
@@ -171,6 +171,8 @@ def list_idioms():
         "twice": [("S", "LbL")],
     }
     for ln, lp in lists.items():
+        if not full and ln in ("left2", "right2", "rightE"):
+            continue
         for cn, cp in ctxs.items():
             prods = cp + lp
             if len(prods) > 6:
@@ -401,14 +403,14 @@ def first_text(g, first):
 # --------------------------------------------------------------------------------------------
 # one grammar: requests, then evaluation
 # --------------------------------------------------------------------------------------------
-def damaged_tables(rng, mods, b):
+def damaged_tables(rng, mods, b, ndamaged=3):
     """a few copies of the real tables with one entry changed (error paths of the driver)"""
     lr = mods[0]
     out = []
     at, gt = b.parser.action_table, b.parser.goto_table
     nstates = 1 + max([s for s, _ in at] + list(gt.values()) + [a.to_state for a in at.values() if isinstance(a, lr.Shift)] + [0])
     nprods = len(b.g.prods)
-    for _ in range(3):
+    for _ in range(ndamaged):
         a2, g2 = dict(at), dict(gt)
         k = rng.randrange(6)
         keys = sorted(a2, key=lambda kv: (kv[0], b.g.code[kv[1]]))
@@ -475,7 +477,7 @@ def prepare(ctx, mods, g, n, rng, with_damage):
         if with_damage:
             lr = mods[0]
             nd = min(n, 4)
-            for a2, g2 in damaged_tables(rng, mods, c.b):
+            for a2, g2 in damaged_tables(rng, mods, c.b, 3 if ctx.thorough else 2):
                 p2 = lr.LrParser(c.b.G, a2, g2)
                 tl2 = dump_tables(mods, g, a2, g2)
                 ws = list(all_strings(g.terms, nd))
@@ -627,13 +629,13 @@ def run_cases(ctx, mods, grammars, n, rng, with_damage=True, workers=8):
 
 def grammars_for(ctx):
     rng = ctx.rng
-    gs = list(CORPUS) + list_idioms()
+    gs = list(CORPUS) + list_idioms(ctx.thorough)
     extra = VERIF / "corpus" / "C32"
     if extra.exists():
         for f in sorted(extra.glob("*.json")):
             gs.append(Gr.from_json(json.loads(f.read_text())))
-    nrand = 500 if ctx.thorough else 70
-    npert = 250 if ctx.thorough else 45
+    nrand = 500 if ctx.thorough else 60
+    npert = 250 if ctx.thorough else 40
     seen = {g.key() for g in gs}
     for _ in range(nrand):
         g = random_grammar(rng)
